@@ -6,6 +6,7 @@ CONSTANTS
   VarcharLens <- MC_VarcharLens
   BaseTable = "t1"
   Aliases <- MC_Aliases_S
+  BigInts <- MC_BigInts_S
   ColPool <- MC_ColPool_S
   CondPool <- MC_CondPool_S
   Dbs <- MC_Dbs_S
@@ -30,7 +31,7 @@ CONSTANTS
   MaxRows = 2
   MaxSet = 2
   MaxVals = 2
-  Slices = {"create_database", "create_table", "del_all", "del_leaf", "del_tree", "given", "ins_cols", "ins_row", "ins_rows", "qid", "sel_combo", "sel_from", "sel_group_alias", "sel_group_cols", "sel_group_count", "sel_item_expr", "sel_item_leaf", "sel_item_tree", "sel_items", "sel_limit", "sel_nofrom", "sel_on", "sel_order", "sel_star", "sel_where_leaf", "sel_where_tree", "show", "str_cond", "str_insert", "str_item", "str_update", "uni", "upd_list", "upd_one", "upd_where_leaf", "upd_where_tree", "use"}
+  Slices = {"big", "create_database", "create_table", "del_all", "del_leaf", "del_tree", "given", "ins_cols", "ins_row", "ins_rows", "qid", "sel_combo", "sel_from", "sel_group_alias", "sel_group_cols", "sel_group_count", "sel_item_expr", "sel_item_leaf", "sel_item_tree", "sel_items", "sel_limit", "sel_nofrom", "sel_on", "sel_order", "sel_star", "sel_where_leaf", "sel_where_tree", "show", "str_cond", "str_insert", "str_item", "str_update", "uni", "upd_list", "upd_one", "upd_where_leaf", "upd_where_tree", "use"}
   Stmts <- MC_Cover
   Vocab <- MC_None
   Vocab2 <- MC_None
